@@ -24,7 +24,7 @@ class TreeOracle(docexp.Oracle):
         if errs:
             k, msg = errs[0]
             res.fail(f'C05/{k}[{op_sig(op)}]',
-                     f'{case["text"]!r} after {case["ops"]}: {msg}; printed {tree.pr(root)!r}'
+                     f'{case["text"]!r} after {case["ops"]}: {msg}; printed {tree.safe_pr(root)!r}'
                      + (f' (call raised {type(ap.exc).__name__})' if ap.exc is not None else ''))
             return
         popped = ap.result
@@ -39,7 +39,7 @@ class TreeOracle(docexp.Oracle):
                 return
             if popped.first_token is not st.get_first() or popped.last_token is not st.get_last():
                 res.fail(f'C05/popped-not-self-contained[{op_sig(op)}]',
-                         f'{case["text"]!r} {case["ops"]}: popped node {tree.pr(popped)!r} does not span its store '
+                         f'{case["text"]!r} {case["ops"]}: popped node {tree.safe_pr(popped)!r} does not span its store '
                          f'{tree.store_text(st)!r}')
                 return
             errs = tree.check_tree(popped)
